@@ -213,7 +213,13 @@ def _arg_keys(program, uid):
         if isinstance(n, ast.Assign) and isinstance(n.targets[0], ast.Subscript) and norm(n.targets[0].value) == "func_args" and isinstance(n.targets[0].slice, ast.Constant):
             keys.add(n.targets[0].slice.value)
         if isinstance(n, ast.Call) and call_name(n) == "func_args.update":
-            updates.append(norm(n.args[0]))
+            # update(mapping) merges a payload, update(key=value, ..) sets the trigger's own keys
+            updates += [norm(a) for a in n.args]
+            keys |= {k.arg for k in n.keywords if k.arg is not None}
+            updates += [norm(k.value) for k in n.keywords if k.arg is None]
+        if isinstance(n, ast.Assign) and norm(n.targets[0]) == "func_args" and isinstance(n.value, ast.Call) and call_name(n.value) == "dict":
+            updates += [norm(a) for a in n.value.args]   # dict(payload, key=value, ..)
+            keys |= {k.arg for k in n.value.keywords if k.arg is not None}
     return keys, updates
 
 
